@@ -77,6 +77,11 @@ def run(ctx):
     ctx.notes["design_model_sensitivity"] = {"select_ignores_failure": r.violated}
     if not r.violated:
         raise core.Inconclusive("Session.tla lost its sensitivity to the ConnectSession select hazard")
+    for cfg, what in (("SessionMC_hazard_reopen.cfg", "reopen_forgets_keyspace"), ("SessionMC_hazard_faillock.cfg", "failed_use_keeps_lock")):
+        r = ctx.tlc("SessionMC", cfg, timeout=600, workers=4, count=False, name="sensitivity-" + what)
+        ctx.notes["design_model_sensitivity"][what] = r.violated
+        if not r.violated:
+            raise core.Inconclusive("Session.tla lost its sensitivity to the hazard %s" % what)
     if t:
         ctx.tlc_must_pass("SessionMC", "SessionMC_thorough.cfg", timeout=3000, name="mc")
     raw = ctx.path("raw-session.ndjson")
